@@ -7,6 +7,53 @@ from .src import parse_type
 from .symex import EXC_NAMES
 
 
+
+def _uconsts(terms):
+    """uninterpreted constants (arity 0) occurring in the given z3 terms, by name"""
+    out = {}; seen = set(); stack = [t for t in terms if t is not None]
+    while stack:
+        t = stack.pop()
+        if not z3.is_expr(t):
+            continue
+        k = t.get_id()
+        if k in seen:
+            continue
+        seen.add(k)
+        if z3.is_quantifier(t):
+            stack.append(t.body()); continue
+        if z3.is_app(t):
+            if t.num_args() == 0 and t.decl().kind() == z3.Z3_OP_UNINTERPRETED:
+                out[t.decl().name()] = t
+            else:
+                stack.extend(t.children())
+    return out
+
+
+def _state_consts(st):
+    terms = list(st.pc) + [v for v in st.heap.values()]
+    for v in st.env.values():
+        if v is not None and getattr(v, "term", None) is not None:
+            terms.append(v.term)
+            if getattr(v, "none", None) is not None and z3.is_expr(v.none):
+                terms.append(v.none)
+    return _uconsts(terms)
+
+
+def generalize_fresh(pre_state, var, formulas):
+    """the body of a comprehension is evaluated ONCE, for an arbitrary element `var`; values introduced during that evaluation (results of contracted calls, fresh reads)
+    are per-element values: every constant that did not exist before is replaced by a function of `var` before the formulas are quantified over the elements"""
+    before = _state_consts(pre_state)
+    # only run-time fresh values (their names carry a `!` counter); canonical names (entry-heap maps `H0_...`, parameters, spec functions) denote one global object
+    new = {n: c for n, c in _uconsts(formulas).items() if n not in before and not c.eq(var) and "!" in n}
+    if not new:
+        return formulas
+    subs = []
+    for n, c in new.items():
+        f = z3.Function(fresh_name("per_elem_" + n.replace("!", "_")), var.sort(), c.sort())
+        subs.append((c, f(var)))
+    return [z3.substitute(f_, *subs) for f_ in formulas]
+
+
 class CallsMixin:
     # ------------------------------------------------------------------ argument evaluation
     def eval_args(self, e, st, d):
@@ -498,6 +545,12 @@ class CallsMixin:
                 if hk not in sb.heap or not sb.heap[hk].eq(hv):
                     if hk in sb.heap or not hv.eq(z3.Const("H0_" + hk, hv.sort())):
                         raise Unsupported(f"comprehension element with a heap effect ({hk}): {ast.unparse(e)[:60]}")
+            # values introduced while the body was evaluated (results of contracted calls) are per-element values; this generic rule has no per-element functions for them
+            _terms = [t_ for t_ in ([v.term] if getattr(v, "term", None) is not None else []) + list(s2.pc[len(s1.pc):]) if t_ is not None]
+            _before = _state_consts(s1)
+            _new = [n_ for n_, c_ in _uconsts(_terms).items() if n_ not in _before and "!" in n_ and not c_.eq(i)]
+            if _new:
+                raise Unsupported(f"comprehension element introduces per-element values ({_new[0]}): {ast.unparse(e)[:60]}")
             # obligations of the body hold for every index
             for ob in sb.obl:
                 s1.oblige("forall-elem:" + ob["name"], z3.ForAll([i], z3.Implies(z3.And(0 <= i, i < n, *ob["pc"][len(s1.pc):]), ob["goal"])), ob["kind"])
@@ -583,6 +636,8 @@ class CallsMixin:
                 raise Unsupported("filter condition branches or raises")
             c = truth(res[0][1], res[0][0])
             extra = res[0][0].pc[len(s1.pc):]
+            gen = generalize_fresh(s1, x, [c] + list(extra))
+            c, extra = gen[0], gen[1:]
             i, j = z3.Int(fresh_name("i_fl")), z3.Int(fresh_name("j_fl"))
             for ob in sb.obl:       # preconditions of calls in the condition hold for every element
                 s1.oblige("forall-elem:" + ob["name"], z3.ForAll([j], z3.Implies(z3.And(0 <= j, j < n), z3.substitute(z3.Implies(z3.And(*ob["pc"][len(s1.pc):]), ob["goal"]), (x, z3.Select(sel, j))))), ob["kind"])
@@ -926,6 +981,9 @@ class CallsMixin:
             r = st.new_list(ety, "choices"); st.set_len(r.term, z3.IntVal(1), ety)
             s2 = st.peek(); el = s2.list_get(xs, V(("int",), j))
             st.list_set(r, mkint(0), el, check=False)
+            if strip_opt(ety)[0] == "ref":
+                # the membership view of the one-element result (without it the view axioms of real lists - non-empty <=> has a member - contradict the length 1)
+                st.set_mem(r.term, z3.Store(z3.K(REF, z3.BoolVal(False)), el.term, z3.BoolVal(True))); st.set_nodup(r.term, True)
             r.py = ("choice", xs, j)
             return [(st, r)]
         raise Unsupported("Random." + name)
